@@ -459,6 +459,22 @@ theorem ipfix_wellformed_published (ft : Val → Bytes) (cache : Cache) (addr : 
     | cons _ _ => rfl
   simp [this, ipfix_marshal_eq_render]
 
+/-- the same chain for a conforming NetFlow v9 exporter: if the received datagram is the encoding of a well-formed
+export packet `m` (RFC 3954 as specified in `Spec.Wire`, templates in the cache or announced earlier in `m`), the payload
+is the rendering of the tree of `m`'s header and of exactly `m`'s records, in wire order (C06 `packet_roundtrip` ∘
+`v9_marshal_eq_render`) -/
+theorem v9_wellformed_published (ft : Val → Bytes) (cache : Cache) (addr : Bytes) (m : Wire.V9.Msg)
+    (hw : Wire.V9.wfMsg addr cache m = true) (hne : (Wire.V9.expected addr cache m).1 ≠ []) :
+    outcome (v9Codec ft) ((v9Codec ft).decode cache addr (Wire.V9.encodeMsg m)).1 =
+      some (render (v9Tree addr (Wire.V9.expectedHdr m) (toJRecs ft (Wire.V9.expected addr cache m).1))) := by
+  have h := V9.decode_roundtrip cache addr m hw
+  simp only [v9Codec, h, outcome, Option.bind_some]
+  have : (Wire.V9.expected addr cache m).1.isEmpty = false := by
+    cases hx : (Wire.V9.expected addr cache m).1 with
+    | nil => exact absurd hx hne
+    | cons _ _ => rfl
+  simp [this, v9_marshal_eq_render]
+
 /-- the NetFlow v5 instance (no template cache; `Flows != nil`; `JSONMarshal` never fails) -/
 def v5CodecA : Codec where
   Cache := Unit
